@@ -95,7 +95,9 @@ func ClientProfileToMultiURLs(profile *pb.ClientProfile) (urls []string, err err
 			q.Add("traffic-pattern", base64.StdEncoding.EncodeToString(b))
 		}
 		for _, binding := range server.GetPortBindings() {
-			if binding.GetPortRange() != "" {
+			// The port takes precedence over the port range when both are set,
+			// the same as in appctlcommon.FlatPortBindings().
+			if binding.GetPort() == 0 && binding.GetPortRange() != "" {
 				q.Add("port", binding.GetPortRange())
 			} else {
 				q.Add("port", strconv.Itoa(int(binding.GetPort())))
